@@ -529,21 +529,24 @@ func c04(c *an.Ctx) {
 // resources, and later invalidations are lost).
 func ruleReleaseInvalidates(c *an.Ctx, o *an.O) {
 	fn := c.NeedFunc(rx, "(*node).release")
-	n := fn.Params[0].Name()
 	var store ssa.Instruction
+	var self ssa.Value // the node whose flag flips: the receiver, or the current node of a work list
 	for _, ref := range an.FieldRefs(fn, rxPath(), "node", "released") {
 		if ref.Kind == "store" {
 			store = ref.Instr
+			if fa, ok := ref.Addr.(*ssa.FieldAddr); ok {
+				self = fa.X
+			}
 		}
 	}
-	if store == nil {
+	if store == nil || self == nil {
 		o.Fail(c.P.Pos(fn.Pos()), "release never sets the released flag")
 		return
 	}
 	o.Site(store)
 	var selfInv []ssa.Instruction
 	for _, i := range an.Calls(fn, an.Mod(rx, "node", "invalidate")) {
-		if an.PathOf(an.CallOf(i).Args[0]) == n {
+		if a0 := an.CallOf(i).Args[0]; a0 == self || an.Expr(a0) == an.Expr(self) {
 			selfInv = append(selfInv, i)
 			o.Site(i)
 		}
@@ -965,14 +968,26 @@ func c08(c *an.Ctx) {
 		ls := an.ComputeLocks(fn, nil)
 		n := fn.Params[0].Name()
 		var store ssa.Instruction
+		var self ssa.Value // the node whose flag flips (the receiver, or the current node of a work list)
+		baseOf := func(addr ssa.Value) ssa.Value {
+			if fa, ok := addr.(*ssa.FieldAddr); ok {
+				return fa.X
+			}
+			return nil
+		}
 		for _, ref := range an.FieldRefs(fn, rxPath(), "node", "released") {
 			o.Site(ref.Instr)
-			if !ls.Held(ref.Instr, n+".mu") {
-				o.FailAt(ref.Instr, "%s.released accessed without %s.mu", n, n)
+			base := baseOf(ref.Addr)
+			if base == nil {
+				o.FailAt(ref.Instr, "node.released accessed through something other than a field of a node")
+				continue
+			}
+			if _, ok := ls.HeldOn(ref.Instr, base, "mu"); !ok {
+				o.FailAt(ref.Instr, "%s.released accessed without %s.mu", an.Expr(base), an.Expr(base))
 			}
 			if ref.Kind == "store" {
-				store = ref.Instr
-				if !an.HasGuard(store.Block(), "!"+n+".released") {
+				store, self = ref.Instr, base
+				if !an.HasGuard(store.Block(), "!"+an.Expr(base)+".released") {
 					o.FailAt(store, "released set without testing it first: cleanup could run twice")
 				}
 			}
@@ -981,17 +996,18 @@ func c08(c *an.Ctx) {
 			o.Fail(p.Pos(fn.Pos()), "release never sets the released flag")
 			return
 		}
+		n = an.Expr(self)
 		inv := an.Calls(fn, an.Mod(rx, "node", "invalidate"))
 		var selfInv []ssa.Instruction
 		for _, i := range inv {
-			if an.PathOf(an.CallOf(i).Args[0]) == n {
+			if a0 := an.CallOf(i).Args[0]; a0 == self || an.Expr(a0) == an.Expr(self) {
 				if _, isCall := i.(*ssa.Call); isCall {
 					selfInv = append(selfInv, i)
 				}
 			}
 		}
 		if an.Reach(fn, nil, an.NewBlocker(selfInv...))[store] {
-			o.FailAt(store, "node released without being invalidated first: dependants would keep using a released resource")
+			o.FailAt(store, "a node is marked released without having been invalidated first: a cached value that depends on it would still be served (cleanInvalidated only evicts invalidated nodes) although its resources are gone")
 		}
 		for _, i := range selfInv {
 			o.Site(i)
@@ -1038,7 +1054,10 @@ func c08(c *an.Ctx) {
 		o.Site(del)
 		dc := an.CallOf(del)
 		outPath := an.PathOf(dc.Args[0]) // from.out
-		if !strings.HasSuffix(outPath, ".out") || an.PathOf(dc.Args[1]) != n {
+		if outPath == "" {
+			outPath = an.Expr(dc.Args[0])
+		}
+		if !strings.HasSuffix(outPath, ".out") || (dc.Args[1] != self && an.Expr(dc.Args[1]) != n) {
 			o.FailAt(del, "unexpected delete(%s, %s); expected delete(from.out, %s)", an.Expr(dc.Args[0]), an.Expr(dc.Args[1]), n)
 			return
 		}
@@ -1063,6 +1082,21 @@ func c08(c *an.Ctx) {
 		var rec []ssa.Instruction
 		for _, i := range an.Calls(fn, an.Mod(rx, "node", "release")) {
 			rec = append(rec, i)
+		}
+		if len(rec) == 0 {
+			// work-list form: the dependency is queued instead of released recursively
+			fromV := baseOf(dc.Args[0].(*ssa.UnOp).X)
+			an.Instrs(fn, func(i ssa.Instruction) {
+				call, ok := i.(*ssa.Call)
+				if !ok {
+					return
+				}
+				if b, ok := call.Call.Value.(*ssa.Builtin); ok && b.Name() == "append" {
+					if el := singleElem(call.Call.Args[1]); el != nil && fromV != nil && (el == fromV || an.Expr(el) == an.Expr(fromV)) {
+						rec = append(rec, i)
+					}
+				}
+			})
 		}
 		if len(rec) == 0 {
 			o.Fail(p.Pos(fn.Pos()), "release never releases a dependency whose out set became empty")
